@@ -96,7 +96,7 @@ def main():
             "guard": "verif",
             "enable": "go build -tags verif (harness module with replace github.com/cbehopkins/gkvlite => /repo)",
             "baseline_off_cmd": "cd /repo && GOFLAGS=-mod=mod GOPROXY=off GOSUMDB=off GOTOOLCHAIN=local go test -vet=off -count=1 -timeout 25m ./...",
-            "source_commits": ["f29ec69"],
+            "source_commits": ["f29ec69", "2a67cf2", "068a57f", "b3c009d"],
             "add_only": True,
         },
         "engines": [
